@@ -158,8 +158,10 @@ Definition dec_bytes (expected : N) (bytes : list N) : option csk :=
     if pre =? 1 then
       do e <- rd 8 8 bytes; Some (mk false true sh theta [e])
     else
-      do n <- rd 4 8 bytes;
+      (* the parser checks that the preamble (entries_start longs) is present before reading the entry count *)
       let start := if has_theta then 24%nat else 16%nat in
+      if (length bytes <? start)%nat then None else
+      do n <- rd 4 8 bytes;
       if too_many n 8 (length bytes) then None else
       do ents <- rd_entries (N.to_nat n) (skipn start bytes);
       Some (mk false (N.testbit fl 4) sh theta ents)
@@ -174,6 +176,7 @@ Definition dec_bytes (expected : N) (bytes : list N) : option csk :=
     if negb (sh =? expected) then None else
     if pre =? 1 then Some (mk true true sh MAX_THETA [])
     else if pre =? 2 then
+      if (length bytes <? 16)%nat then None else
       do n <- rd 4 8 bytes;
       if n =? 0 then Some (mk true true sh MAX_THETA []) else
       if too_many n 8 (length bytes) then None else
